@@ -135,3 +135,150 @@ theorem construct_valid {c : Cls} {ci : Nat} (hp : ClsPlain S c ci) {args : List
 
 end
 end Ofx.Agg
+
+namespace Ofx.Agg
+open Ofx
+
+section
+variable (S : Schema) (cv : Conv) (esc : Str → Str) (Dom : Kind → Bool → Val → Prop)
+
+theorem mapM_mem_src {α β} (f : α → PyM β) : ∀ (l : List α) (r : List β), l.mapM (m := PyM) f = .ok r →
+    ∀ y ∈ r, ∃ x ∈ l, f x = .ok y
+  | [], r, h, y, hy => by
+    simp [List.mapM_nil, pure, Except.pure] at h; subst h; simp at hy
+  | x :: l, r, h, y, hy => by
+    rw [List.mapM_cons] at h
+    cases hx : f x with
+    | error e => simp [hx, bind, Except.bind] at h
+    | ok x' =>
+      cases hl : l.mapM (m := PyM) f with
+      | error e => simp [hx, hl, bind, Except.bind] at h
+      | ok l' =>
+        simp only [hx, hl, bind, Except.bind, pure, Except.pure] at h
+        injection h with h; subst h
+        simp only [List.mem_cons] at hy
+        rcases hy with rfl | hy
+        · exact ⟨x, by simp, hx⟩
+        · obtain ⟨z, hz, hfz⟩ := mapM_mem_src f l l' hl y hy
+          exact ⟨z, by simp [hz], hfz⟩
+
+theorem validItems_of_vals : ∀ (items : List Node), (∀ m ∈ items, m.isAgg = false) →
+    ValidItems S cv esc Dom items
+  | [], _ => by simp [ValidItems]
+  | m :: r, h => ⟨fun hagg => (by rw [h m (by simp)] at hagg; cases hagg),
+      validItems_of_vals r (fun x hx => h x (List.mem_cons_of_mem _ hx))⟩
+
+/-- class-level premises of `Valid` for an instance of any concrete class of a well-formed schema -/
+structure ClsAny (c : Cls) (ci : Nat) : Prop where
+  hc : S.cls? ci = some c
+  concrete : c.abstract = false
+  hfind : S.findIdx? c.name = some ci
+  wf : ClsWF S c
+  gr : GroomOk c
+
+/-- **an instance returned by `Cls(*args, **kwargs)` is `Valid`** — plain aggregates, `ElementList`s and classes
+    with a rename alike: what the constructor stored per attribute is in the domain (`hfield`), the members it
+    accepted are valid instances (plain) / the values its list element made of the arguments are in the domain
+    (`ElementList`), and `validate_args` accepts the written-back form. -/
+theorem construct_valid_any {c : Cls} {ci : Nat} (hp : ClsAny S c ci) {args : List Node} {kw : List (Str × Node)}
+    {n : Node} (h : construct S cv ci args kw = .ok n)
+    (hfield : ∀ a ∈ specNoList c, a.kind.isUnsupported = false → ∀ v,
+      setAttr S cv a ((lookup a.name kw).getD (.val .none)) = .ok (some v) →
+      FieldOk Dom a v ∧ (v.isAgg = true → Valid S cv esc Dom v))
+    (hargs : c.elementList = false → ∀ m ∈ args, Valid S cv esc Dom m ∧
+      ∃ cj f i cjc, m = .agg cj f i ∧ S.cls? cj = some cjc ∧ '.' ∉ cjc.name)
+    (hargsEl : c.elementList = true → ∀ a ∈ c.spec, ∀ inner ireq, a.kind = .listElem inner ireq →
+      ∀ m ∈ args, ∀ x, cv.convert S.enums inner ireq (Node.toVal m) = .ok x → x ≠ .none ∧ Dom inner ireq x)
+    (hvalidate : ∀ fields items, setAttrs S cv (specNoList c) kw = .ok fields → applyArgs S cv c args = .ok items →
+      validateArgs S c (rawItemsOf S cv esc c items) (rawKwOf S cv esc fields c.spec) = .ok ()) :
+    Valid S cv esc Dom n := by
+  obtain ⟨c', fields, items, hc', _, hs, ha, _, rfl⟩ := (construct_ok_iff S cv ci args kw n).mp h
+  rw [hp.hc] at hc'; injection hc' with hc'; subst hc'
+  have hfm := setAttrs_fieldsMatch S cv kw _ fields
+    (fun a ha => by simpa [specNoList] using (List.mem_filter.mp ha).2) hs
+  have hfm' := hfm.withLookup (specNoList_nodup c hp.wf.nodup)
+  have hboth : FieldsMatch (fun a v => FieldOk Dom a v ∧ (v.isAgg = true → Valid S cv esc Dom v))
+      (specNoList c) fields :=
+    hfm'.imp (fun a ha v hv => hfield a ha hv.2.1 v hv.1)
+  have hval := hvalidate fields items hs ha
+  cases hel : c.elementList with
+  | false =>
+    have ha' := ha
+    rw [applyArgs, if_neg (by simp [hel])] at ha'
+    obtain ⟨hitems, happ⟩ := mapM_applyArg_same S c args items ha'
+    subst hitems
+    refine ⟨⟨c, ?_⟩, ?_, ?_⟩
+    · refine ⟨hp.hc, hp.concrete, hp.hfind, hp.wf, hp.gr,
+        hboth.imp (fun _ _ _ hv => hv.1), ?_, (fun h => by rw [hel] at h; cases h), ?_, hval⟩
+      · intro _ m hm
+        obtain ⟨_, cj, f, i, cjc, rfl, hcj, hdot⟩ := hargs hel m hm
+        have := happ _ hm
+        simp only [applyArg, argClassName, clsName, hcj] at this
+        split at this
+        · rename_i hcon
+          exact ⟨cj, f, i, cjc, rfl, hcj, hcon, hdot⟩
+        · simp at this
+      · intro hno
+        cases items with
+        | nil => rfl
+        | cons m r =>
+          exfalso
+          obtain ⟨_, cj, f, i, cjc, rfl, hcj, _⟩ := hargs hel m (by simp)
+          have := happ _ (List.mem_cons_self)
+          simp only [applyArg] at this
+          split at this
+          · rename_i hcon
+            have hnil : listAggNames c = [] := by
+              simp only [listAggNames, hel, Bool.false_eq_true, if_false, List.map_eq_nil_iff,
+                List.filter_eq_nil_iff]
+              intro a ha hk
+              have : a.kind.isList = true := by cases hka : a.kind <;> simp_all [Kind.isListAgg, Kind.isList]
+              have hall := List.any_eq_false.mp hno a ha
+              simp [this] at hall
+            simp [hnil] at hcon
+          · simp at this
+    · exact validFields_of_match S cv esc Dom (hboth.imp (fun _ _ _ hv => hv.2))
+    · exact validItems_of_forall S cv esc Dom items (fun m hm => (hargs hel m hm).1)
+  | true =>
+    obtain ⟨a0, inner, ireq, hfilt, hk0, honly⟩ := hp.wf.elOk hel
+    have ha0 : a0 ∈ c.spec := by
+      have : a0 ∈ c.spec.filter (fun a => a.kind.isListElem) := by rw [hfilt]; simp
+      exact (List.mem_filter.mp this).1
+    -- the members are the list element's conversions of the arguments
+    have hmapM : args.mapM (m := PyM) (fun m => (cv.convert S.enums inner ireq (Node.toVal m)).map Node.val) = .ok items := by
+      have ha' := ha
+      simp only [applyArgs, hel, if_true, hfilt, hk0] at ha'
+      exact ha'
+    have hmem : ∀ m ∈ items, ∃ r ∈ args, (cv.convert S.enums inner ireq (Node.toVal r)).map Node.val = .ok m :=
+      mapM_mem_src _ args items hmapM
+    refine ⟨⟨c, ?_⟩, ?_, ?_⟩
+    · refine ⟨hp.hc, hp.concrete, hp.hfind, hp.wf, hp.gr,
+        hboth.imp (fun _ _ _ hv => hv.1), (fun h => by rw [hel] at h; cases h), ?_, ?_, hval⟩
+      · intro _ a ha inner' ireq' hk m hm
+        have haeq : a = a0 := honly a ha (by rw [hk]; rfl)
+        subst haeq
+        rw [hk0] at hk; injection hk with hk1 hk2; subst hk1; subst hk2
+        obtain ⟨r, hr, hconv⟩ := hmem m hm
+        cases hx : cv.convert S.enums inner ireq (Node.toVal r) with
+        | error e => simp [hx, Except.map] at hconv
+        | ok x =>
+          simp only [hx, Except.map] at hconv
+          injection hconv with hconv; subst hconv
+          obtain ⟨h1, h2⟩ := hargsEl hel a ha inner ireq hk0 r hr x hx
+          exact ⟨x, rfl, h1, h2⟩
+      · intro hno
+        exfalso
+        have hall := List.any_eq_false.mp hno a0 ha0
+        simp [hk0, Kind.isList] at hall
+    · exact validFields_of_match S cv esc Dom (hboth.imp (fun _ _ _ hv => hv.2))
+    · -- members of an ElementList are values: nothing to validate below them
+      have : ∀ m ∈ items, m.isAgg = false := by
+        intro m hm
+        obtain ⟨r, _, hconv⟩ := hmem m hm
+        cases hx : cv.convert S.enums inner ireq (Node.toVal r) with
+        | error e => simp [hx, Except.map] at hconv
+        | ok x => simp only [hx, Except.map] at hconv; injection hconv with hconv; subst hconv; rfl
+      exact validItems_of_vals S cv esc Dom items this
+
+end
+end Ofx.Agg
